@@ -34,13 +34,23 @@ fn digest2(v: u32, msg: &[u8], split: usize) -> Vec<u8> {
                 }
                 3 => {
                     digest::Update::update(&mut h, &[0x5au8; 70][..]);
+                    // block counter far into a message before the reset
+                    let (cv, _, _, _) = h.verif_get_state();
+                    h.verif_set_state(cv, 0x0001_0000_0203, &[0x11u8; 3][..]);
                     digest::Reset::reset(&mut h);
                 }
                 _ => {}
             }
             h.update(&msg[..split]);
             h.update(&msg[split..]);
-            h.finalize().to_vec()
+            if (msg.len() + split) % 4 == 1 {
+                // the digest of a clone taken after the data was absorbed
+                let c = h.clone();
+                h.update(b"x");
+                c.finalize().to_vec()
+            } else {
+                h.finalize().to_vec()
+            }
         }};
     }
     match v {
